@@ -45,7 +45,7 @@ def gen(rng, tier):
             buf = dnsgen.mutate(rng, buf)
         yield f"{dnsgen.hx(buf)} rq"
     for _ in range(n):
-        buf, qd, nrr = dnsgen.build_message(rng)
+        buf, qd, nrr = dnsgen.build_message(rng, types=dnsgen.LITE_TYPES + dnsgen.NAME_TYPES + [9, 7, 14, 11])
         if rng.random() < 0.45:
             buf = dnsgen.mutate(rng, buf)
         ops = op_sequence(rng, qd, nrr)
@@ -91,11 +91,10 @@ CHECK = {
     "property": "C15",
     "props": "Props/C15.v",
     "theorems": ["c15_total", "c15_atomic", "c15_cursor_inv", "c15_total_seq", "c15_new_inv",
-                 "c15_faithful_question", "c15_faithful_rr", "c15_peek_consistent", "c15_rd_lite_ok"],
+                 "c15_faithful_question", "c15_faithful_rr", "c15_peek_consistent", "c15_rd_lite_ok", "c15_rd_full_ok"],
     "allowed_axioms": [],
     "correspondence": {"impl_bin": "impl_c15", "extract": "Extract/ExC15.v", "driver": "run_c15.ml"},
     "gen": gen,
-    "corr_eq": corr_eq,
     "nontrivial": nontrivial,
     "classify": classify,
     "n_samples": 6,
